@@ -1023,6 +1023,15 @@ def check_caller(rep, repo):
         vvs = {x for x in walk(g) if x[0] == 'attr' and x[2] == 'varValue'}
         return len(vvs) == 1 and truthy_of(g, next(iter(vvs)))
     from ..shapes import placeholder_extend
+    def flattened_rows(t):
+        """list(chain.from_iterable(E for row in rows)) / [x for row in rows for x in E] is one `extend(E)` per row"""
+        if t[0] == 'call' and t[1] == S('list') and len(t[2]) == 1 and not t[3]:
+            t = t[2][0]
+        if t[0] == 'call' and t[1] == A(S('chain'), 'from_iterable') and len(t[2]) == 1 and t[2][0][0] == 'comp':
+            c_ = t[2][0]
+            return ('accum', ('list', ()), (('extend', NONE, c_[2], c_[1]),), 'rows', 0)
+        return t
+    rv2 = flattened_rows(rv2)
     pe = placeholder_extend(rv2)
     if pe is not None:
         # one extend per row: the row's selected pair(s), or [None] when there is none
